@@ -437,3 +437,8 @@ def run(ctx):
     r4_token_classes_within_converter_domains(ctx)
     r5_no_double_descent(ctx)
     r6_no_composed_recursion(ctx)
+    # the name table panics when a name is inserted in a style that clashes with what is there (an audited
+    # site: the declaration rules look first).  That every declaration looks at everything of the name - the
+    # local entries of both styles and the SHARED ones - before it makes a type is decided by C13.R12
+    from . import c13
+    c13.r12_every_definition_looks_at_the_shared_names(ctx, "C07.R7")
